@@ -377,6 +377,15 @@ def scope_problems(mod, codec):
         k = t['k']
         if k == 'STRING' and t['sk'] not in MODELLED_STRINGS:
             out.append('unmodelled string kind ' + t['sk'])
+        if k == 'SEQUENCE' and t['ext']:
+            mt = member_tags(mod, rt_of, t)
+            nroot = len(t['root'])
+            add_tags = set()
+            for m, tg in mt[nroot:]:
+                add_tags |= outer_tags(mod, rt_of, m['t'], tg)
+            for m, tg in mt[:nroot]:
+                if m['opt'] is not None and outer_tags(mod, rt_of, m['t'], tg) & add_tags:
+                    out.append('finding sequence-retry-steals-addition')
         if k in ('SEQUENCE', 'SET', 'CHOICE'):
             for m, tg in member_tags(mod, rt_of, t):
                 rt = rt_of(m['t'])
